@@ -20,13 +20,13 @@ CHECKS = {
     "C02": dict(
         category="model_checking",
         technique="choice-tree exploration (stateless, deviation-bounded) over the agent's GETBULK truncation policy per response, real client vs reference agent, differential against the GETNEXT walk and the subtree model",
-        text="For each small-scope configuration and bulk size the explorer enumerates every way the agent may truncate each GETBULK response (full, early stop, any prefix) up to the deviation bound; each execution's result must equal the reference GETNEXT walk and the real multiwalk result, each instance once.",
+        text="For each small-scope configuration and bulk size the explorer enumerates every way the agent may truncate each GETBULK response (full, early stop, any prefix) up to the deviation bound; each execution's result must equal the reference GETNEXT walk and the real multiwalk result, each instance once. Every execution runs on a fresh client; per configuration the default execution is repeated on a long-lived client that served all earlier configurations (history pass). A wide-walk family (17..41 sibling roots of unequal length, thorough up to 65) covers requests beyond any per-request limit.",
         note="Trusted: reference agent's GETBULK (RFC 3416 4.2.3); bound on deviations and database size as reported in the evidence.",
         design="5/C02",
     ),
     "C03": dict(
         category="model_checking",
-        technique="choice-tree exploration with a lazily built adversarial agent function (every function OID x repetition -> OID or endOfMibView over a finite universe), oracle on the request log",
+        technique="choice-tree exploration with a lazily built adversarial agent function (every function OID x repetition -> OID or endOfMibView over a finite universe; short answers and error responses decided per distinct request), oracle on the request log",
         text="The agent is an arbitrary function from (requested OID, repetition) to an OID of a finite universe or endOfMibView, chosen lazily at first use and memoised, so all reachable behaviours (same OID, smaller OID, cycles, leaving and re-entering, endOfMibView anywhere) are enumerated; every execution must end within the request bound, never re-request, and end with FaultySNMPImplementation (or normally in lenient mode) on a non-advancing answer.",
         note="Finite OID universe and horizon as reported; larger bulk sizes deviation-bounded.",
         design="5/C03",
@@ -41,7 +41,7 @@ CHECKS = {
     "C05": dict(
         category="model_checking",
         technique="exhaustive enumeration of boundary-value argument sets per operation; every emitted datagram decoded by an independent strict BER/SNMP decoder",
-        text="Every datagram captured at the sender seam over the boundary universes (sub-identifiers, arcs, value types and ranges, ids, bulk parameters, communities, contexts, engine ids) must strictly decode to exactly the intended request.",
+        text="Every datagram captured at the sender seam over the boundary universes (sub-identifiers, arcs, value types and ranges, ids, bulk parameters, communities, contexts, engine ids) must strictly decode to exactly the intended request; the request-id is whatever Integer32 the client picked (it must recognise it when the reference agent echoes it), msgID within 0..2^31-1.",
         note="Trusted: reference decoder (validated on captured net-snmp traffic). Values outside the boundary sets are not covered.",
         design="5/C05",
     ),
@@ -96,22 +96,22 @@ CHECKS = {
     ),
     "C13": dict(
         category="model_checking",
-        technique="choice-tree exploration of per-attempt network outcomes and timer/datagram orderings of the real send_udp on a virtual-time event loop with fake datagram transports; closed-form leaf count cross-check",
-        text="Every sequence of per-attempt outcomes (reply, none, reply at/after the timeout, duplicate, ICMP error, connection lost) up to the retry budget is executed on a virtual loop; sends, payloads, result/Timeout instant and closure of every transport are compared with a reference retry model.",
+        technique="choice-tree exploration of per-attempt network outcomes and timer/datagram orderings of the real send_udp on a virtual-time event loop with fake datagram transports; oracle over the trace of what reached an open socket; closed-form or independent recursive leaf count cross-check",
+        text="Every sequence of per-attempt outcomes (reply, none, reply at/after the timeout, duplicate, ICMP error, connection lost, cancellation, empty reply, send error) up to the retry budget is executed on a virtual loop, also with socket set-up that takes time and with the library's logging at DEBUG; the first datagram that reached a socket the call still had open must be returned at that instant, every transmission must follow the previous one by exactly `timeout` (plus set-up), Timeout must come `timeout` after the `retries`-th transmission, every transport must be closed. The oracle holds for any socket structure (one per attempt or one for all).",
         note="Trusted: virtual loop built on asyncio.BaseEventLoop; fake transport models the selector transport contract (checked against loopback sockets in the thorough tier).",
         design="5/C13",
     ),
     "C14": dict(
         category="model_checking",
-        technique="stateless schedule exploration (preemption-bounded) of concurrent asyncio tasks on a shared client: the explorer chooses which pending request the agent answers next; solo-result oracle",
-        text="For sets of 2..4 concurrent operations every order of answering their pending requests (exhaustive for small sets, preemption-bounded beyond) is executed on a virtual loop; each task's result must equal its solo result and the agent must see only well-formed requests of the right user.",
-        note="Suspension points are exactly the awaits on the sender; interleaving count cross-checked against the multinomial closed form.",
+        technique="stateless schedule exploration (preemption-bounded) of concurrent asyncio tasks on a shared client: the explorer chooses which pending request the agent answers next, or that a caller cancels its operation; solo-result oracle",
+        text="For sets of 2..6 concurrent operations (raw client and pythonic wrapper, near-duplicate requests that differ only in repetition count / split / value / order, operations whose caller gives up) every order of answering their pending requests (exhaustive for small sets, preemption-bounded beyond) is executed on a virtual loop; each task's result must equal its solo result and the agent must see only well-formed requests of the right user.",
+        note="Requests are attributed to operations through a context variable (an implementation may send from tasks of its own); interleaving count cross-checked against the multinomial closed form or an independent recursive count.",
         design="5/C14",
     ),
     "C15": dict(
         category="model_checking",
         technique="exhaustive enumeration of wrapper method x value kind x position; recursive type inspection and comparison with the pythonised raw result",
-        text="Every PyWrapper method is run against databases placing each of the 13 value kinds at each result position; results must consist of built-in types only (keys included) and equal the element-wise pythonisation of the raw client's result for the same exchange.",
+        text="Every PyWrapper method is run against databases placing each of the 13 value kinds at each result position; results must consist of built-in types only (keys included) and equal the element-wise pythonisation of the raw client's result for the same exchange; a pair family puts every ordered pair of 19 small values of different kinds (equal or one-octet contents) into one result.",
         note="Trusted: reference pythonisation map.",
         design="5/C15",
     ),
@@ -125,7 +125,7 @@ CHECKS = {
     "C17": dict(
         category="exploration",
         technique="exhaustive range enumeration (dense prefix of TimeTicks in both directions, boundary bands, all boundary integers and addresses) against independent integer arithmetic",
-        text="Counter/Counter64 wrap and clamp, unsigned decoding, TimeTicks<->timedelta and IpAddress conversions are evaluated on every value of the dense ranges and boundary bands and compared with independently computed results; encode/decode round trips must be identities.",
+        text="Counter/Counter64 wrap and clamp, unsigned decoding, TimeTicks<->timedelta and IpAddress conversions are evaluated on every value of the dense ranges and boundary bands and compared with independently computed results; encode/decode round trips must be identities; boundary numbers of every application type are also fetched together in one datagram and converted, before and after conversions of timedeltas between two ticks.",
         note="Exhaustive on the stated ranges only.",
         design="5/C17",
     ),
@@ -133,13 +133,13 @@ CHECKS = {
         category="model_checking",
         technique="explicit-state breadth-first search over histories of configure / reconfigure-enter / exit (normal, exceptional) / request with a stack-of-dicts reference model; canonical state hashing",
         text="All properly nested histories up to the length and depth bounds are replayed on a fresh real client; at each request the sender arguments and datagram must reflect the model's top of stack, and each exit must restore the pre-enter behaviour.",
-        note="Canonical state = model stack + live protocol family + discovery flag.",
+        note="Canonical state = model stack + which frames have served which credentials + every credentials used in the history + what is visible of client.config / mpm. The discovery clause is behavioural: after a request has succeeded in a frame, every later request of that frame (also after inner blocks) is one datagram.",
         design="5/C18",
     ),
     "C19": dict(
         category="model_checking",
         technique="explicit-state breadth-first search over datagram sequences injected into the real trap listener on a virtual loop; delivery multiset oracle from the reference decoder",
-        text="All sequences up to the length bound over valid, foreign-community, truncated, v1, garbage and inform datagrams are injected; the callback must fire exactly once per valid matching trap with the bindings and origin sent, never otherwise, and failures must not stop later deliveries.",
+        text="All sequences up to the length bound over valid, foreign-community, truncated, v1, garbage and inform datagrams are injected; the callback must fire exactly once per valid matching trap with the bindings and origin sent (also for the same datagram from another sender, also when read again after later datagrams), never otherwise, and failures must not stop later deliveries.",
         note="Virtual loop and fake transport as for C13.",
         design="5/C19",
     ),
